@@ -356,7 +356,16 @@ class ServiceClass:
                     f"(Warning - {status[1]})"
                 )
                 self.dimse.send_msg(rsp, cx_id)
-                continue
+                if (
+                    rsp.Status == 0xB001
+                    and context.abstract_syntax == "1.2.840.10008.5.1.4.1.1.201.6"
+                ):
+                    # Repository Query: PS3.4, Annex C.6.4.4
+                    # 0xB001 conveys end of Pending responses
+                    continue
+
+                # Any other warning status is a final response
+                return
 
             if status[0] == STATUS_PENDING:
                 # If pending, `dataset` is the Identifier
